@@ -276,11 +276,14 @@ def m_bm_is_empty(I, c, args, fr):
 
 @model('BytesMut::capacity')
 def m_bm_capacity(I, c, args, fr):
-    return len(bytebuf(args[0]).b)
+    b = bytebuf(args[0])
+    return len(b.b) + len(b.spare)
 
 @model('BytesMut::clear', 'Bytes::clear')
 def m_bm_clear(I, c, args, fr):
-    del bytebuf(args[0]).b[:]
+    b = bytebuf(args[0])
+    b.spare = b.b + b.spare
+    b.b = []
     return UNIT
 
 @model('BytesMut::reserve')
@@ -307,6 +310,7 @@ def m_bm_truncate(I, c, args, fr):
     if is_sym(n):
         raise Unsupported('symbolic truncate length')
     if n < len(b.b):
+        b.spare = b.b[n:] + b.spare          # the memory stays allocated (capacity is unchanged)
         del b.b[n:]
     return UNIT
 
@@ -319,9 +323,12 @@ def m_bm_resize(I, c, args, fr):
     if n > 1 << 24:
         raise Unsupported('BytesMut::resize to %d bytes' % n)
     if n < len(b.b):
+        b.spare = b.b[n:] + b.spare
         del b.b[n:]
     else:
-        b.b.extend([args[2]] * (n - len(b.b)))
+        grow = n - len(b.b)
+        b.b.extend([args[2]] * grow)
+        b.spare = b.spare[grow:]             # growing into the spare capacity overwrites it (beyond it: reallocation)
     return UNIT
 
 @model('BytesMut::split_off', 'Bytes::split_off')
@@ -330,10 +337,20 @@ def m_bm_split_off(I, c, args, fr):
     at = args[1]
     if is_sym(at):
         raise Unsupported('symbolic split_off position')
-    if at > len(b.b):        # capacity == len in this model: the documented panic is `at > capacity`
-        raise Panic('split_off out of bounds: %d <= %d' % (at, len(b.b)))
-    tail = ByteBuf(b.b[at:], b.kind)
-    del b.b[at:]
+    cap = len(b.b) + len(b.spare)
+    if at > cap:
+        raise Panic('split_off out of bounds: %d <= %d' % (at, cap))
+    if at <= len(b.b):
+        tail = ByteBuf(b.b[at:], b.kind)
+        tail.spare = b.spare
+        del b.b[at:]
+        b.spare = []
+    else:
+        k = at - len(b.b)
+        tail = ByteBuf([], b.kind)
+        tail.spare = b.spare[k:]
+        b.spare = b.spare[:k]
+    tail.tail_of = b
     return tail
 
 @model('BytesMut::split_to', 'Bytes::split_to')
@@ -358,7 +375,16 @@ def m_bm_split(I, c, args, fr):
 @model('BytesMut::unsplit')
 def m_bm_unsplit(I, c, args, fr):
     b = bytebuf(args[0])
-    b.b.extend(args[1].b)
+    o = args[1]
+    if not b.b and not b.spare:
+        b.b = list(o.b); b.spare = list(o.spare)
+        return UNIT
+    if o.tail_of is b and not b.spare:
+        # contiguous (ptr + len == other.ptr): the two views are joined again, the other view's capacity comes back
+        b.b.extend(o.b); b.spare = list(o.spare)
+    else:
+        b.b.extend(o.b)                      # not contiguous: extend_from_slice (may reallocate)
+        b.spare = b.spare[len(o.b):]
     return UNIT
 
 @model('BytesMut::freeze')
@@ -371,6 +397,7 @@ def m_bm_put_slice(I, c, args, fr):
     src = deref(args[1])
     items = as_items(src)
     b.b.extend(items)
+    b.spare = b.spare[len(items):]
     return UNIT
 
 @model('BufMut::put_u8')
@@ -380,6 +407,7 @@ def m_bm_put_u8(I, c, args, fr):
     if is_sym(x) and x.size() != 8:
         x = simp(z3.Extract(7, 0, x))
     b.b.append(x)
+    b.spare = b.spare[1:]
     return UNIT
 
 @model('BufMut::has_remaining_mut')
